@@ -102,7 +102,7 @@
    (ite (= k 6) 255 (ite (= k 7) 65535 (ite (= k 8) 4294967295 18446744073709551615))))))))
 (define-fun slice.wf ((s Slice)) Bool (and (<= 0 (slen s)) (<= (slen s) (scap s)) (<= (scap s) MaxInt) (<= 0 (soff s)) (>= (sref s) 0) (=> (= (sref s) 0) (= (scap s) 0))))
 (define-fun val.wf ((v Val)) Bool (and
-  (=> ((_ is VStr) v) (str.wf (vstr v)))
+  (=> ((_ is VStr) v) (and (str.wf (vstr v)) (str.aligned (vstr v))))
   (=> ((_ is VJNum) v) (str.wf (vjnum v)))
   (=> ((_ is VArr) v) (slice.wf (varr v)))
   (=> ((_ is VObj) v) (>= (vobj v) 0))
@@ -148,3 +148,55 @@
        (=> (and (> (str.len s) 0) (isbound (sbase s) (slo s)) (< (ridx (sbase s) (slo s)) (nr (sbase s))))
            (and (= (+ (slo s) sz) (roff (sbase s) (+ (ridx (sbase s) (slo s)) 1)))
                 (= r (runit (sbase s) (ridx (sbase s) (slo s))))))))
+; ---- decimal128 (third-party; uninterpreted, facts are assumptions listed in the evidence) ----
+(declare-fun dec.add (Dec Dec) Dec) (declare-fun dec.sub (Dec Dec) Dec) (declare-fun dec.mul (Dec Dec) Dec) (declare-fun dec.quo (Dec Dec) Dec)
+(declare-fun dec.quorem.q (Dec Dec) Dec) (declare-fun dec.quorem.r (Dec Dec) Dec)
+(declare-fun dec.neg (Dec) Dec) (declare-fun dec.abs (Dec) Dec) (declare-fun dec.ceil (Dec) Dec) (declare-fun dec.floor (Dec) Dec)
+(declare-fun dec.cmp (Dec Dec) Int) (declare-fun dec.equal (Dec Dec) Bool) (declare-fun dec.compare (Dec Dec) Int)
+(declare-fun dec.real (Dec) Real)
+(define-fun dec.isfin ((d Dec)) Bool (and (not (dec.isnan d)) (not (dec.isinf d))))
+(declare-fun dec.ofuint (Int) Dec) (declare-fun dec.off64 (F64) Dec) (declare-fun dec.off32 (F32) Dec)
+(declare-fun dec.parse (Str) Dec) (declare-fun dec.parseok (Str) Bool)
+(declare-fun dec.unmarshal (Str) Dec) (declare-fun dec.unmarshalok (Str) Bool)
+(declare-fun dec.int64 (Dec) Int) (declare-fun dec.int64ok (Dec) Bool)
+(declare-fun dec.isintegral (Dec) Bool)
+(declare-fun dec.str (Dec) Str)
+(declare-fun jnum.int64 (Str) Int) (declare-fun jnum.int64ok (Str) Bool) (declare-fun jnum.float64ok (Str) Bool)
+; @section decfacts dec.ofint dec.cmp dec.equal dec.compare dec.int64 dec.zero dec.ofuint
+(assert (forall ((i Int)) (! (and (dec.isfin (dec.ofint i)) (= (dec.real (dec.ofint i)) (to_real i)) (dec.isintegral (dec.ofint i))) :pattern ((dec.ofint i)))))
+(assert (forall ((i Int)) (! (and (dec.isfin (dec.ofuint i)) (= (dec.real (dec.ofuint i)) (to_real i)) (dec.isintegral (dec.ofuint i))) :pattern ((dec.ofuint i)))))
+(assert (and (dec.isfin dec.zero) (= (dec.real dec.zero) 0.0) (dec.iszero dec.zero)))
+(assert (forall ((x Dec) (y Dec)) (! (and (<= (- 2) (dec.cmp x y)) (<= (dec.cmp x y) 1)
+   (= (= (dec.cmp x y) (- 2)) (or (dec.isnan x) (dec.isnan y)))
+   (=> (and (dec.isfin x) (dec.isfin y)) (and (= (= (dec.cmp x y) 0) (= (dec.real x) (dec.real y))) (= (= (dec.cmp x y) (- 1)) (< (dec.real x) (dec.real y))))))
+   :pattern ((dec.cmp x y)))))
+(assert (forall ((x Dec) (y Dec)) (! (= (dec.equal x y) (= (dec.cmp x y) 0)) :pattern ((dec.equal x y)))))
+(assert (forall ((x Dec) (y Dec)) (! (= (dec.compare x y) (ite (dec.isnan x) (ite (dec.isnan y) 0 (- 1)) (ite (dec.isnan y) 1 (dec.cmp x y)))) :pattern ((dec.compare x y)))))
+(assert (forall ((x Dec)) (! (=> (dec.isfin x) (= (dec.iszero x) (= (dec.real x) 0.0))) :pattern ((dec.iszero x)))))
+; @section core
+(define-fun cmp.less ((c Int)) Bool (= c (- 1)))
+(define-fun cmp.greater ((c Int)) Bool (= c 1))
+(define-fun cmp.le ((c Int)) Bool (or (= c (- 1)) (= c 0)))
+(define-fun cmp.ge ((c Int)) Bool (or (= c 1) (= c 0)))
+(declare-fun rtype.str (Int) Str)
+(declare-fun str.quote (Str) Str) (declare-fun str.itoa (Int) Str)
+(declare-fun B_len!alias () Int)
+(declare-fun str.index (Int Int) Int) (declare-fun str.lastindex (Int Int) Int)
+(declare-fun str.hasprefix (Int Int) Bool) (declare-fun str.hassuffix (Int Int) Bool)
+(declare-fun str.tolower (Str) Str) (declare-fun str.toupper (Str) Str) (declare-fun str.replace (Str Str Str Int) Str)
+(declare-fun atoi.ok (Str) Bool) (declare-fun atoi.val (Str) Int)
+(declare-fun f64.ceil (F64) F64) (declare-fun f64.abs (F64) F64) (declare-fun f64.mod (F64 F64) F64)
+(declare-fun str.units (Str) Int)
+(define-fun str.whole ((s Str)) Bool (and (= (slo s) 0) (= (shi s) (blen (sbase s)))))
+(define-fun str.subwindow ((r Str) (s Str)) Bool (and (= (sbase r) (sbase s)) (<= (slo s) (slo r)) (<= (slo r) (shi r)) (<= (shi r) (shi s))))
+; utf8.DecodeLastRuneInString (assumption A7: backward and forward segmentation agree)
+(define-fun decode.lastpost ((s Str) (r Int) (sz Int)) Bool
+  (and (=> (= (str.len s) 0) (and (= sz 0) (= r 65533)))
+       (=> (> (str.len s) 0) (and (<= 1 sz) (<= sz 4) (<= sz (str.len s))))
+       (<= 0 r) (<= r 1114111)
+       (=> (and (> (str.len s) 0) (isbound (sbase s) (shi s)) (> (ridx (sbase s) (shi s)) 0))
+           (and (= (- (shi s) sz) (roff (sbase s) (- (ridx (sbase s) (shi s)) 1)))
+                (= r (runit (sbase s) (- (ridx (sbase s) (shi s)) 1)))))))
+; @section units str.units
+(assert (forall ((s Str)) (! (and (<= 0 (str.units s)) (<= (str.units s) (str.len s)) (=> (str.aligned s) (= (str.units s) (str.runes s)))) :pattern ((str.units s)))))
+; @section core
